@@ -986,7 +986,25 @@ def ownerC (s : St) : Option Nat → Nat
   | none => notAUid
 
 /-- the owner `_inject_task1` settles on; `none`: the request is refused on ownership grounds -/
-def effOwner (s : St) (owner : Option Nat) (u : Nat) : Option Nat := effCore s (ownerC s owner) (complUid s u)
+def effOwner (s : St) (owner : Option Nat) (u : Nat) : Option Nat :=
+  if u ≠ notAUid ∧ complUid s u = notAUid then none   -- a peer that is given but unknown is refused
+  else effCore s (ownerC s owner) (complUid s u)
+
+theorem effOwner_refused {s : St} {owner : Option Nat} {u : Nat} (h : u ≠ notAUid ∧ complUid s u = notAUid) :
+    effOwner s owner u = none := if_pos h
+
+theorem effOwner_core {s : St} {owner : Option Nat} {u : Nat} (h : ¬ (u ≠ notAUid ∧ complUid s u = notAUid)) :
+    effOwner s owner u = effCore s (ownerC s owner) (complUid s u) := if_neg h
+
+theorem effOwner_some {s : St} {owner : Option Nat} {u e : Nat} (h : effOwner s owner u = some e) :
+    (u = notAUid ∨ complUid s u ≠ notAUid) ∧ effCore s (ownerC s owner) (complUid s u) = some e := by
+  by_cases c : u ≠ notAUid ∧ complUid s u = notAUid
+  · rw [effOwner_refused c] at h; cases h
+  · rw [effOwner_core c] at h
+    refine ⟨?_, h⟩
+    by_cases hu : u = notAUid
+    · exact Or.inl hu
+    · exact Or.inr (fun hc => c ⟨hu, hc⟩)
 
 /-- the record a (re)load arms -/
 def loaded (s : St) (t0 : DTask) : DTask := { resched t0 s.now with active := true, seq := s.perseq }
@@ -1070,9 +1088,19 @@ theorem inject_core (s : St) (uid : String) (maxSimul dur : Nat) (occ : List Nat
 theorem inject_eq (s : St) (uid : String) (owner : Option Nat) (maxSimul dur : Nat) (occ : List Nat)
     (isTask : Bool) (u : Nat) :
     inject s uid owner maxSimul dur occ isTask u = injectSpec s uid owner maxSimul dur occ isTask u := by
-  cases owner with
-  | none => exact inject_core s uid maxSimul dur occ isTask notAUid (complUid s u)
-  | some o => exact inject_core s uid maxSimul dur occ isTask (complUid s o) (complUid s u)
+  unfold injectSpec
+  by_cases c : u ≠ notAUid ∧ complUid s u = notAUid
+  · rw [effOwner_refused c]
+    unfold inject
+    simp only []
+    rw [if_pos c]
+  · rw [effOwner_core c]
+    unfold inject
+    simp only []
+    rw [if_neg c]
+    cases owner with
+    | none => exact inject_core s uid maxSimul dur occ isTask notAUid (complUid s u)
+    | some o => exact inject_core s uid maxSimul dur occ isTask (complUid s o) (complUid s u)
 
 theorem complUid_ne {s : St} {x : Nat} (h : complUid s x ≠ notAUid) :
     complUid s x = x ∧ x ≠ notAUid ∧ s.users.contains x = true := by
@@ -1118,7 +1146,7 @@ theorem effCore_some {s : St} {oc uc e : Nat} (h : effCore s oc uc = some e) :
 
 theorem effOwner_known {s : St} {owner : Option Nat} {u e : Nat} (h : effOwner s owner u = some e) :
     e ≠ notAUid ∧ s.users.contains e = true := by
-  obtain ⟨h1, h2, h3, h4⟩ := effCore_some h
+  obtain ⟨h1, h2, h3, h4⟩ := effCore_some (effOwner_some h).2
   refine ⟨h2, ?_⟩
   rcases h1 with h1 | h1
   · obtain ⟨o, _, ho, _, hk⟩ := ownerC_ne (s := s) (owner := owner) (h1 ▸ h2)
